@@ -1080,6 +1080,10 @@ class Unit:
                     text = re.sub(r'(?<![\w:])Ordering::(Relaxed|SeqCst)', r'atomic_ordering::Ordering::\1', text)
                     self.log.add('R20(io::Error message/kind tests -> stand-in predicates)', site, n20 + n20b)
                     continue
+                if r == 'R28':
+                    text, n28 = re.subn(r'unsafe\s*\{\s*String::from_utf8_unchecked\((\w+)\)\s*\}', r'v_string_from_utf8_unchecked(\1)', text)
+                    self.log.add('R28(String::from_utf8_unchecked -> trusted stand-in)', site, n28)
+                    continue
                 if r == 'R23':
                     text, n23 = re.subn(r'mem::size_of::<usize>\(\)', 'mem::size_of_usize()', text)
                     text, n23b = re.subn(r'<P: AsRef<Path>>', '<P>', text)
@@ -1132,7 +1136,7 @@ class Unit:
             # pre/postcondition alone (no loop contracts, no hints).  Otherwise the loss is reported (undecided).
             c2 = Contract(c.file, c.path, ret=c.ret, requires=c.requires, ensures=c.ensures, decreases=c.decreases,
                           ghostparams=c.ghostparams, ghostargs=c.ghostargs, attrs=c.attrs,
-                          rewrites=[r for r in c.rewrites if r in ('R5', 'R20', 'R21', 'R23') or r.startswith('R17')])
+                          rewrites=[r for r in c.rewrites if r in ('R5', 'R20', 'R21', 'R23', 'R28') or r.startswith('R17')])
             c2.ats = [a for a in c.ats if a[0] == 'fn_start' and 'let ghost' not in a[2]]
             text = self.apply_rewrites(raw, site, c2)
             _, loops = find_loops(split_fn(text)[1])
